@@ -590,7 +590,7 @@ var raceFacet = harness.Register(&harness.Facet[raceCase]{
 	Name:     "concurrent-runtimes",
 	Rule:     "rapid: a template history (all heap builders plus 1-3 drawn ones), one shared source compiled once to a Script and parsed once to a Program, and 2-8 runtimes of mixed provenance (fresh, copies of the template, copies of such copies that run at the same time, the template itself; a third of them first draw from Math.random without a source of their own), each sweeping the whole standard library once or twice and then running 1-4 private programs followed by a call of every function left in the global scope (heap builders/mutators, programs touching every subsystem with package-level data: regexp, JSON, Date, sort, number formatting, Math with a per-runtime random source, URI functions, error creation and stack text, accessor descriptors, Function/eval, strings; 30% from the semantic generator), half of them with an interrupt channel, a Script reuse count 1-50, GOMAXPROCS 2/4/16, optionally Copy() of the template from several goroutines while it runs. Executed in a -race worker subprocess. Oracle: (1) no race report / fatal error (worker death is attributed to the case), (2) each runtime's results and host-free trace equal those of the same programs run alone sequentially, (3) the structural hash of the compiled Script (read-only reflection over all fields) is unchanged by execution, (4) a sharing runtime gets the same results when the shared source is compiled afresh before every run instead of once (a Script that remembers its previous run), (5) stability: a fresh runtime computes the same canary (formatting probes and the library sweep) before, between and after the phases of every case as at the start of the worker process. Non-trivial = at least two runtimes share the Script/Program or the template; distinct by case",
 	Quick:    40,
-	Thorough: 100,
+	Thorough: 500,
 	Gen: func(t *rapid.T) raceCase {
 		c := raceCase{Reuse: rapid.SampledFrom([]int{1, 2, 5, 20, 50}).Draw(t, "reuse"), Procs: rapid.SampledFrom([]int{2, 4, 16}).Draw(t, "procs")}
 		for i, n := 0, rapid.IntRange(1, 3).Draw(t, "nsetup"); i < n; i++ {
